@@ -6,7 +6,7 @@ from ..model import norm, head, walk_no_nested, AnalysisError, FuncInfo, enclosi
 from ..cfg import cfg_of
 from ..resolve import Resolver, Ctx
 from ..symlen import LenEval, show, Unsupported
-from ..q import (find, match, const, try_const, only_via, tests, stmt_nodes, one, fmt, cfg_node_for, linear, calls)
+from ..q import (find, match, const, try_const, only_via, tests, stmt_nodes, one, fmt, cfg_node_for, linear, calls, through_locals)
 from ..core import key
 
 LLC = 'nfc.llcp.llc.LogicalLinkController'
@@ -213,11 +213,20 @@ def rule_tables(report, prog):
     wt = [x for x in walk_no_nested(prog.func(DEP + '.ATR_RES.wt').node) if isinstance(x, ast.Return)][0].value
     report.check(norm(wt) == 'self.to & 15', 'C19-R2', key(DEP + '.ATR_RES.wt', 'WT = TO & 0x0F'), fi.loc(), 'WT mask changed: %s' % norm(wt))
     r = assigned_value(fi, 'self.rwt')
-    okk = len(r) == 1 and norm(r[0].value) == '4096 / 13560000.0 * 2 ** (atr_res.wt if atr_res.wt < 15 else 14)'
+
+    def same(expr, fnode, var, values, spec):
+        # the expression folded for every value of the one quantity it depends on
+        for e_ in (expr, through_locals(fnode, expr, as_node=True)):
+            try:
+                return all(abs(const(e_, {var: v}) - spec(v)) <= 1e-12 * spec(v) for v in values)
+            except Exception:
+                continue
+        return False
+    okk = len(r) == 1 and same(r[0].value, fi.node, 'atr_res.wt', range(16), lambda wt: 4096 / 13.56E6 * 2 ** min(wt, 14))
     report.check(okk, 'C19-R2', key(fi.qname, 'RWT = 4096/fc * 2^min(WT,14) from the peer\'s ATR_RES'), fi.loc(),
                  'initiator RWT formula changed: %s' % [norm(x.value) for x in r])
     r = assigned_value(ft, 'self.rwt')
-    okk = len(r) == 1 and norm(r[0].value) == '4096 / 13560000.0 * pow(2, rwt)'
+    okk = len(r) == 1 and same(r[0].value, ft.node, 'rwt', range(15), lambda k: 4096 / 13.56E6 * 2 ** k)
     report.check(okk, 'C19-R2', key(ft.qname, 'RWT = 4096/fc * 2^rwt from the announced option'), ft.loc(),
                  'target RWT formula changed: %s' % [norm(x.value) for x in r])
     a = find(ft.node, 'atr_res = ATR_RES(nfcid3t, 0, 0, 0, rwt, pp, gbt)')
@@ -376,6 +385,18 @@ def rule_budget(report, prog, res, rule='C19-R4'):
             continue
         lin = linear(sts[0].value)
         const_sub = -lin.get('1', 0)
+        # the budget folded for sample activations: what it takes off LR without optional bytes, and whether a DID / NAD costs one byte
+        # more (independent of how the expression is written); the linear form is the fall-back
+        budget = through_locals(act.node, sts[0].value, as_node=True)
+
+        def miu(did, nad):
+            return const(budget, {'atr_res.lr': 200, 'atr_req.lr': 200, 'self.did': did, 'atr_req.did': did or 0, 'self.nad': nad})
+        sampled = None
+        try:
+            sampled = {'': 200 - miu(None, None), 'did': miu(None, None) - miu(5, None), 'nad': miu(None, None) - miu(None, 7)}
+            const_sub = sampled['']
+        except Exception:
+            sampled = None
         # which optional bytes can this role put into its DEP PDUs?  (attribute may become non-None)
         for attr in ('did', 'nad'):
             may_use = False
@@ -387,7 +408,7 @@ def rule_budget(report, prog, res, rule='C19-R4'):
             # and does the role pass it to the PFB flag?
             uses = any(('self.' + attr) in [norm(a) for a in call.args] for call in ast.walk(prog.lookup(c, 'exchange').node)
                        if isinstance(call, ast.Call))
-            term = [k for k, v in lin.items() if attr in k and v == -1]
+            term = [k for k, v in lin.items() if attr in k and v == -1] if sampled is None else ([attr] if sampled[attr] == 1 else [])
             if may_use and uses:
                 report.check(bool(term), rule, key(act.qname, 'payload budget subtracts the optional %s byte' % attr.upper(), sts[0].value),
                              act.loc(sts[0]),
